@@ -118,12 +118,35 @@ fn light_case(ctx: &mut Ctx, case: u64, rng: &mut Rng, scratch: &Scratch) {
     let mut faults = 0;
     let events = rng.range(8, if ctx.is_quick() { 60 } else { 120 });
     ctx.eval();
+    // The safety observation below reads full dumps, and a full dump commits the store's open write
+    // batch. One history in three is therefore observed sparsely, so that writes, deliveries,
+    // sessions and a refused call share one uncommitted batch (added after seeded change agent-C04-7).
+    let sparse = case % 3 == 1;
+    if sparse {
+        ctx.count("histories_observed_sparsely", 1);
+    }
+    let missing_doc = iroh_docs::NamespaceSecret::from_bytes(&[0xD7; 32]).id();
     for _ in 0..events {
         // the logical clock does not always advance between events (same-tick writes)
         if rng.chance(2, 3) {
             tick += 1;
         }
-        match rng.below(10) {
+        match rng.below(11) {
+            10 => {
+                // a call that the store must refuse (it names a document the store does not have):
+                // what a late completion does after its document was dropped. It must not cost any
+                // replica an accepted write
+                let i = rng.below(n);
+                let refused = if rng.chance(1, 2) {
+                    nodes[i].store.set_download_policy(&missing_doc, iroh_docs::store::DownloadPolicy::default()).is_err()
+                } else {
+                    nodes[i].store.register_useful_peer(missing_doc, [7u8; 32]).is_err()
+                };
+                if refused {
+                    ctx.count("refused_calls_between_writes", 1);
+                    trace.push(format!("n{i}: a call for a missing document is refused"));
+                }
+            }
             0..=3 => {
                 // local write
                 let i = rng.below(n);
@@ -144,7 +167,13 @@ fn light_case(ctx: &mut Ctx, case: u64, rng: &mut Rng, scratch: &Scratch) {
                     1 => l = 0,
                     _ => {}
                 }
-                let mut r = nodes[i].store.open_replica(&ns).unwrap();
+                let mut r = match nodes[i].store.open_replica(&ns) {
+                    Ok(r) => r,
+                    Err(e) => {
+                        ctx.violation(case, "replica-lost-its-document", json!({"replica": i, "err": format!("{e:?}"), "trace": trace}));
+                        return;
+                    }
+                };
                 let res = if del { block_on(r.delete_prefix(&k, &uni.authors[a])) } else { block_on(r.insert(&k, &uni.authors[a], h, l)) };
                 drop(r);
                 nodes[i].store.close_replica(ns);
@@ -227,7 +256,10 @@ fn light_case(ctx: &mut Ctx, case: u64, rng: &mut Rng, scratch: &Scratch) {
                 }
             }
         }
-        // at every step: nothing that nobody wrote
+        // at every step (sparse histories: one step in six): nothing that nobody wrote
+        if sparse && !rng.chance(1, 6) {
+            continue;
+        }
         for (i, nd) in nodes.iter_mut().enumerate() {
             let d = dump_model(&mut nd.store, ns).unwrap();
             for e in d.map.values() {
